@@ -10,7 +10,12 @@ ASSUMPTIONS = ["values (conditions, model, mean, positions) are abstracted to id
                "(generator restarted), all other histories use nugget-free models and repeat / change seeds freely",
                "custom field names given to store= / krige_store= are distinct from the names of the other slots of the same object "
                "(the model keeps one name space per slot)",
-               "positions are changed through calls and set_pos of either object, not by assigning the pos / mesh_type attributes"]
+               "positions are changed through calls and set_pos of either object, not by assigning the pos / mesh_type attributes",
+               "seed=None (a random seed from the operating system) is not reproducible and stays outside the histories; the documented "
+               "'keep the seed of the generator' is the omitted seed argument / seed=np.nan",
+               "the independent kriging oracle of the variant search (numpy solve of the kriging system assembled from model.covariance "
+               "of hand-computed anisotropic distances and hand-written drift rows) is compared only where its own matrix has a "
+               "condition number <= 1e7"]
 
 SEED = 20240917
 # names of the stored fields per slot: index = the model's name identifier (0 = default name)
@@ -42,14 +47,52 @@ PROFILES = ["len", "opt", "geo", "rescale", "var", "nugget"]
 NPOS = 6
 
 
+# kriging variants usable as the kriging step of a CondSRF: the three functional-drift forms of universal kriging, external
+# drift kriging (every CondSRF / kriging call has to pass the drift at the target mesh) and detrended kriging (callable trend)
+VARIANTS = ["Simple", "Ordinary", "Universal", "Universal-quadratic", "Universal-callables", "ExtDrift", "Detrended"]
+
+
+def drift_count(variant, dim):
+    """number of drift rows (functional + external) of the kriging system"""
+    return {"Universal": dim, "Universal-quadratic": dim + dim * (dim + 1) // 2, "Universal-callables": 2, "ExtDrift": 1}.get(variant, 0)
+
+
+def _drift_a(*pos):
+    return np.cos(np.asarray(pos[0], dtype=float) / 4.0)
+
+
+def _drift_b(*pos):
+    return 0.3 * np.asarray(pos[-1], dtype=float) + 0.02 * np.asarray(pos[0], dtype=float) ** 2
+
+
+def ext_fun(*pos):
+    """the external drift variable, known everywhere"""
+    return np.sin(np.asarray(pos[0], dtype=float) / 3.0) + 0.2 * np.asarray(pos[-1], dtype=float)
+
+
+def ext_at(mesh):
+    """external drift at a target mesh (pos, mesh_type): one value per point, structured meshes in 'ij' order"""
+    pos, mt = mesh
+    if mt == "structured":
+        return ext_fun(*np.meshgrid(*pos, indexing="ij")).reshape(-1)
+    return ext_fun(*pos)
+
+
+def trend_fun(c):
+    """the callable trend of detrended kriging behind a mean identifier"""
+    def trend(*pos):
+        return c + 0.1 * np.asarray(pos[0], dtype=float)
+    return trend
+
+
 def concrete(rng, dim=None, variant=None, cls=None, profile=None, same_count=None):
     """concrete values behind the abstract identifiers.  `profile` says in WHAT the four model identifiers differ:
        len (length scale, and anisotropy + rotation for dim > 1), opt (ONE optional argument only), geo (anisotropy / rotation
        only), rescale only, var only, nugget only"""
     dim = int(rng.randint(1, 4)) if dim is None else dim
-    v = str(rng.choice(["Simple", "Ordinary", "Universal"]))
+    v = str(rng.choice(VARIANTS))
     variant = v if variant is None else variant
-    n = int(rng.randint(3, 7)) + (dim + 1 if variant == "Universal" else 0)   # linear drift: keep the system regular
+    n = int(rng.randint(3, 7)) + (drift_count(variant, dim) + 1 if variant not in ("Simple", "Detrended") else 0)   # keep the system regular
     cp = rng.uniform(0, 10, size=(dim, n))
     base = rng.randn(n)
     conds = [base + 0.75 * k * np.cos(np.arange(n) + k) for k in range(4)]
@@ -118,13 +161,51 @@ def set_model(model, cv, model_id):
 def build(cv, cond, model_id, mean_id, seed=SEED):
     import gstools as gs
     model = make_model(cv, model_id)
-    if cv["variant"] == "Simple":
+    v = cv["variant"]
+    if v == "Simple":
         kr = gs.krige.Simple(model, cv["cp"], cv["conds"][cond], mean=cv["means"][mean_id])
-    elif cv["variant"] == "Ordinary":
+    elif v == "Ordinary":
         kr = gs.krige.Ordinary(model, cv["cp"], cv["conds"][cond], trend=cv["means"][mean_id])
+    elif v == "ExtDrift":
+        kr = gs.krige.ExtDrift(model, cv["cp"], cv["conds"][cond], ext_fun(*cv["cp"]), trend=cv["means"][mean_id])
+    elif v == "Detrended":
+        kr = gs.krige.Detrended(model, cv["cp"], cv["conds"][cond], trend_fun(cv["means"][mean_id]))
     else:
-        kr = gs.krige.Universal(model, cv["cp"], cv["conds"][cond], drift_functions="linear", trend=cv["means"][mean_id])
+        drift = {"Universal": "linear", "Universal-quadratic": "quadratic", "Universal-callables": [_drift_a, _drift_b]}[v]
+        kr = gs.krige.Universal(model, cv["cp"], cv["conds"][cond], drift_functions=drift, trend=cv["means"][mean_id])
     return gs.CondSRF(kr, seed=seed, mode_no=64)
+
+
+def ext_kw(cv, pos_id):
+    """what every CondSRF / kriging call of an external-drift setup has to pass: the drift at the target mesh"""
+    if cv["variant"] != "ExtDrift" or pos_id is None:
+        return {}
+    return {"ext_drift": ext_at(cv["poss"][pos_id])}
+
+
+def seed_id(cv, op, ncall):
+    """seed identifier of the `ncall`-th CondSRF call (real seed = SEED + id); None: the call passes no seed (`keep` 1) or
+       seed=np.nan (`keep` 2), i.e. keeps the seed of the generator.  Histories with a model nugget pass a new seed at every call"""
+    if cv["profile"] == "nugget":
+        return 10 + ncall
+    if op.get("keep", 0):
+        return None
+    return op.get("sd", 0)
+
+
+def driver_ops(cv, ops):
+    """the history as sent to the Lean model"""
+    out, ncall = [], 0
+    for op in ops:
+        o = normal(op)
+        o.pop("seed", None)
+        if op["k"] == "call":
+            ncall += 1
+            sid = seed_id(cv, op, ncall)
+            if sid is not None:
+                o["seed"] = sid
+        out.append(o)
+    return out
 
 
 def _slot_opts(rng, op, name_key, save_key, p_off, p_name):
@@ -142,8 +223,11 @@ def gen_call(rng, with_pos=None):
     op = {"k": "call"}
     if (rng.rand() < 0.6) if with_pos is None else with_pos:
         op["pos"] = int(rng.randint(0, NPOS))
-    if rng.rand() < 0.3:
-        op["sd"] = int(rng.randint(1, 3))
+    q = rng.rand()
+    if q < 0.3:
+        op["sd"] = int(rng.randint(1, 3))       # a new seed
+    elif q < 0.65:
+        op["keep"] = int(rng.randint(1, 3))     # no seed argument / seed=np.nan: keep the generator's seed
     r = rng.rand()
     if r < 0.5:
         return op
@@ -265,6 +349,8 @@ def kind(o):
     """operation kind used in violation keys; operations with default options keep their plain name"""
     k = o["k"]
     if k == "call":
+        if o.get("keep", 0):
+            k += "_keepseed"
         if not o.get("store", True):
             k += "_nostore"
         if o.get("rn", 0):
@@ -327,14 +413,19 @@ def stored_sets(crf):
 
 def run_real(cv, ops, c0, m0, mu0):
     """replays a history on a real CondSRF object.  Returns a dict:
-       calls: per CondSRF call 'ValueError' (no positions yet) or (equals_fresh: bool, max abs diff[, note]);
+       calls: per CondSRF call 'ValueError' (no positions yet) or (equals_fresh: bool, max abs diff[, note]) — fresh = a newly
+              built object with the current data / model / mean and the seed IN FORCE (the last seed passed to a call, else the
+              constructor's), called once at the current positions;
+       uncond: per CondSRF call None or (equals_fresh, max abs diff) of the stored unconditional field alone;
+       seeds: per CondSRF call the generator's public seed after the call (as identifier);
        names: per operation (sorted field_names of the CondSRF object, of the Krige object) after it;
        survivors: (operation index, operation kind, leftover names) wherever a deletion / position change left a stored field
                   behind that this very operation did not store (independent of the Lean model)"""
     crf = build(cv, c0, m0, mu0)
     cond, model_id, mean_id, pos_id = c0, m0, mu0, None
-    out, names, survivors = [], [], []
+    out, names, survivors, uncond, seeds = [], [], [], [], []
     ncall = 0
+    cur = 0              # identifier of the seed in force (the generator was built with SEED + 0)
     fresh_cache = {}
     with warnings.catch_warnings():
         warnings.simplefilter("ignore")
@@ -346,20 +437,28 @@ def run_real(cv, ops, c0, m0, mu0):
                 p = op.get("pos", None)
                 store, kstore = store_args(op)
                 ncall += 1
-                seed = SEED + 10 + ncall if cv["profile"] == "nugget" else SEED + op.get("sd", 0)
+                sid = seed_id(cv, op, ncall)
+                if sid is not None:
+                    cur = sid       # the generator takes the seed over before anything can fail
+                seed = SEED + cur
+                skw = {"seed": SEED + sid} if sid is not None else ({"seed": np.nan} if op.get("keep", 0) == 2 else {})
                 if p is not None:
                     pos_id = p      # set_pos happens before anything can fail
+                skw.update(ext_kw(cv, pos_id))
                 try:
                     if p is None:
-                        res = crf(seed=seed, store=store, krige_store=kstore)
+                        res = crf(store=store, krige_store=kstore, **skw)
                     else:
-                        res = crf(cv["poss"][p][0], seed=seed, mesh_type=cv["poss"][p][1], store=store, krige_store=kstore)
+                        res = crf(cv["poss"][p][0], mesh_type=cv["poss"][p][1], store=store, krige_store=kstore, **skw)
                 except Exception as e:       # noqa
                     raised = True
                     if pos_id is None and isinstance(e, ValueError):
                         out.append("ValueError")
                     else:
                         out.append((False, float("inf"), "raised %s: %s" % (type(e).__name__, str(e)[:80])))
+                    uncond.append(None)
+                gs_ = crf.generator.seed
+                seeds.append(None if gs_ is None else int(gs_) - SEED)
                 if not raised:
                     o = normal(op)
                     own_crf = {tbl[o.get(nk, 0)] for tbl, nk, sk in ((FIELD_NAMES, "fn", "fs"), (RAWF_NAMES, "rfn", "rfs"),
@@ -370,9 +469,22 @@ def run_real(cv, ops, c0, m0, mu0):
                     # once at the current positions — a pure function of these identifiers, computed once per history
                     fk = (cond, model_id, mean_id, pos_id, seed)
                     if fk not in fresh_cache:
-                        fresh_cache[fk] = build(cv, cond, model_id, mean_id, seed=seed)(
-                            cv["poss"][pos_id][0], seed=seed, mesh_type=cv["poss"][pos_id][1])
-                    fresh = fresh_cache[fk]
+                        fo = build(cv, cond, model_id, mean_id, seed=seed)
+                        ff = fo(cv["poss"][pos_id][0], seed=seed, mesh_type=cv["poss"][pos_id][1], **ext_kw(cv, pos_id))
+                        fresh_cache[fk] = (ff, fo["raw_field"])
+                    fresh, fresh_raw = fresh_cache[fk]
+                    # the unconditional part on its own (whenever this call stored it): equal to the fresh object's in EVERY
+                    # history, refreshed or not
+                    rname = RAWF_NAMES[o.get("rfn", 0)]
+                    if o.get("rfs", True) and rname in crf.field_names:
+                        rr_ = np.asarray(crf[rname])
+                        if rr_.shape != np.shape(fresh_raw):
+                            uncond.append((False, float("inf")))
+                        else:
+                            du = float(np.max(np.abs(rr_ - fresh_raw)))
+                            uncond.append((bool(du <= 1e-9 * (1 + np.abs(fresh_raw).max())), du))
+                    else:
+                        uncond.append(None)
                     if np.shape(res) != np.shape(fresh):
                         out.append((False, float("inf"), "shape %s instead of %s" % (np.shape(res), np.shape(fresh))))
                     else:
@@ -384,9 +496,9 @@ def run_real(cv, ops, c0, m0, mu0):
                     pos_id = p
                 try:
                     if p is None:
-                        crf.krige(store=krige_store_arg(op))
+                        crf.krige(store=krige_store_arg(op), **ext_kw(cv, pos_id))
                     else:
-                        crf.krige(cv["poss"][p][0], mesh_type=cv["poss"][p][1], store=krige_store_arg(op))
+                        crf.krige(cv["poss"][p][0], mesh_type=cv["poss"][p][1], store=krige_store_arg(op), **ext_kw(cv, pos_id))
                     o = normal(op)
                     own_krige = {tbl[o.get(nk, 0)] for tbl, nk, sk in ((KFIELD_NAMES, "kfn", "kfs"), (VAR_NAMES, "vn", "store"))
                                  if o.get(sk, True)}
@@ -417,6 +529,8 @@ def run_real(cv, ops, c0, m0, mu0):
                 mean_id = op["v"]
                 if cv["variant"] == "Simple":
                     crf.mean = cv["means"][mean_id]
+                elif cv["variant"] == "Detrended":
+                    crf.trend = trend_fun(cv["means"][mean_id])
                 else:
                     crf.trend = cv["means"][mean_id]
             elif k == "delete":
@@ -438,7 +552,7 @@ def run_real(cv, ops, c0, m0, mu0):
                     left += ["Krige:" + x for x in nk_ if x not in own_krige]
             if left:
                 survivors.append((idx, k if pos_id == old_pos or k in ("delete", "krige_delete", "set_condition") else k + "-new-pos", left))
-    return {"calls": out, "names": names, "survivors": survivors}
+    return {"calls": out, "names": names, "survivors": survivors, "uncond": uncond, "seeds": seeds}
 
 
 def _c(**kw):
@@ -477,6 +591,13 @@ DIRECTED = [
     ("meshes-set-pos", [_c(pos=0), _c(pos=1), {"k": "set_pos", "pos": 5}, _c()]),
     ("meshes-structured", [_c(pos=3), _c(pos=0), _c(pos=3), {"k": "set_condition", "cond": 2}, _c(), {"k": "krige_set_pos", "pos": 4}, _c()]),
     ("meshes-krige-first", [{"k": "krige_call", "pos": 1}, _c(), {"k": "set_condition", "cond": 3}, _c(), {"k": "delete"}, _c()]),
+    # the unconditional part after a model change, calls WITHOUT a seed (keep 1: no seed argument, keep 2: seed=np.nan)
+    ("model-refresh-keep", [_c(pos=0), {"k": "model", "v": 1}, {"k": "set_condition"}, _c(keep=1), _c(pos=1, keep=2)]),
+    ("model-reassign-refresh-keep", [_c(pos=0, sd=1), {"k": "model", "v": 2, "re": True}, {"k": "set_condition"}, _c(pos=0, keep=1), _c(),
+                                     {"k": "model", "v": 3}, {"k": "set_condition", "cond": 2}, _c(keep=2), _c(sd=1), _c(keep=1)]),
+    ("seed-of-a-raising-call-kept", [_c(sd=2), _c(pos=0, keep=1), {"k": "model", "v": 1}, {"k": "set_condition"}, _c(keep=1), _c(sd=2)]),
+    ("model-twice-keep", [_c(pos=3, keep=1), {"k": "model", "v": 2}, {"k": "model", "v": 1, "re": True}, {"k": "set_condition"},
+                          {"k": "krige_call"}, _c(keep=1), {"k": "delete"}, _c(keep=2)]),
     ("meshes-names", [_c(pos=0, fn=1, rfn=1, rn=1, kfn=1, vn=1), _c(pos=4, rn=2, vn=2), _c(pos=1), _c(pos=5, rn=1, vn=1),
                       {"k": "model", "v": 3}, {"k": "set_condition"}, _c(rn=1, vn=1), {"k": "krige_delete"}, _c(rn=1, vn=1)]),
 ]
@@ -487,7 +608,8 @@ def directed_cases():
     out = []
     combos = [("Simple", None, "len"), ("Ordinary", None, "len"), ("Simple", "Stable", "opt"), ("Ordinary", "Matern", "opt"),
               ("Universal", "TPLStable", "opt"), ("Simple", "Rational", "rescale"), ("Ordinary", "Exponential", "var"),
-              ("Simple", "Spherical", "geo"), ("Ordinary", "Gaussian", "nugget")]
+              ("Simple", "Spherical", "geo"), ("Ordinary", "Gaussian", "nugget"), ("ExtDrift", "Exponential", "len"),
+              ("Detrended", "Matern", "var"), ("Universal-quadratic", "Spherical", "geo"), ("Universal-callables", "Stable", "len")]
     for i, (name, ops) in enumerate(DIRECTED):
         for j in (i % 2, 2 + (i % (len(combos) - 2))):
             variant, cls, profile = combos[j]
@@ -534,7 +656,7 @@ def correspondence(ctx):
         cases.append((cv, ops, c0, m0, mu0))
     H = len(cases)
     for cv, ops, c0, m0, mu0 in cases:
-        opsl.append({"op": "cond_history", "cond": c0, "model": m0, "mean": mu0, "ops": [normal(o) for o in ops]})
+        opsl.append({"op": "cond_history", "cond": c0, "model": m0, "mean": mu0, "seed": 0, "ops": driver_ops(cv, ops)})
     # the conditioning formula on Float
     fops = []
     for _ in range(ctx.scale(30, 300)):
@@ -549,12 +671,24 @@ def correspondence(ctx):
     res = run_driver(opsl)
     dis, distinct = [], set()
     dist = {"calls": 0, "reused": 0, "stale_predicted": 0, "ValueError": 0, "mixed_runs_predicted": 0, "names_compared": 0,
-            "max_stored": 0, "ops": {}, "profiles": {}, "classes": {}, "pos_changes_with_stored_fields": 0}
+            "max_stored": 0, "ops": {}, "profiles": {}, "classes": {}, "variants": {}, "pos_changes_with_stored_fields": 0,
+            "uncond_compared": 0, "seeds_compared": 0, "calls_keeping_seed": 0, "calls_keeping_seed_after_model_change": 0}
     for ci, ((cv, ops, c0, m0, mu0), r) in enumerate(zip(cases, res[:H])):
         for o in ops:
             dist["ops"][kind(o)] = dist["ops"].get(kind(o), 0) + 1
         dist["profiles"][cv["profile"]] = dist["profiles"].get(cv["profile"], 0) + 1
         dist["classes"][cv["cls"]] = dist["classes"].get(cv["cls"], 0) + 1
+        dist["variants"][cv["variant"]] = dist["variants"].get(cv["variant"], 0) + 1
+        changed = False
+        for o in ops:
+            if o["k"] == "model":
+                changed = True
+            elif o["k"] == "call" and cv["profile"] != "nugget" and o.get("keep", 0):
+                dist["calls_keeping_seed"] += 1
+                dist["calls_keeping_seed_after_model_change"] += int(changed)
+                changed = False
+            elif o["k"] == "call":
+                changed = False
         try:
             rr = directed_run(ci, cv, ops, c0, m0, mu0) if ci < ND else run_real(cv, ops, c0, m0, mu0)
         except Exception as e:       # noqa
@@ -581,6 +715,22 @@ def correspondence(ctx):
                                     "model's bookkeeping", "op_index": i, "op": ops[i], "real": {"CondSRF": a[0], "Krige": a[1]},
                             "model": {"CondSRF": mb[0], "Krige": mb[1]}, "ops": ops, "init": [c0, m0, mu0], "config": describe(cv)})
                 break
+        # the generator: its public seed after every call, and the stored unconditional field against the fresh object's
+        for i, (sr, ur, b) in enumerate(zip(rr["seeds"], rr["uncond"], rcalls)):
+            if b != "ValueError":
+                dist["seeds_compared"] += 1
+                if sr != b["seed"]:
+                    dis.append({"what": "CondSRF call: generator.seed after the call differs from the model's seed in force",
+                                "call_index": i, "real": sr, "model": b["seed"], "ops": ops, "init": [c0, m0, mu0], "config": describe(cv)})
+                    break
+                if ur is not None:
+                    dist["uncond_compared"] += 1
+                    if ur[0] != b["gen_eq_fresh"]:
+                        dis.append({"what": "CondSRF call: the stored unconditional field vs the fresh object's does not match the generator "
+                                            "model's prediction (fresh at every call of every history)", "call_index": i, "real": ur,
+                                    "model": {"gen": b["gen"], "gen_fresh": b["gen_fresh"]}, "ops": ops, "init": [c0, m0, mu0],
+                                    "config": describe(cv)})
+                        break
         for i, (a, b) in enumerate(zip(real, rcalls)):
             dist["calls"] += 1
             if a == "ValueError" or b == "ValueError":
@@ -590,7 +740,7 @@ def correspondence(ctx):
                 dist["reused"] += int(b["reused"])
                 dist["stale_predicted"] += int(not b["eq_fresh"])
                 dist["mixed_runs_predicted"] += int(not b["same_run"])
-                ok = a[0] == b["eq_fresh"]
+                ok = a[0] == (b["eq_fresh"] and b["gen_eq_fresh"])
                 if not ok and a[0] and not b["eq_fresh"]:
                     # the model predicts a (documented) stale reuse, the real output nevertheless equals the fresh object's: the
                     # abstract identifiers were not distinguishable on these concrete values (e.g. all targets out of range of a
@@ -624,14 +774,17 @@ def correspondence(ctx):
     return {"evaluations": dist["calls"] + dist["names_compared"] + len(fops), "distinct_nontrivial": len(distinct),
             "rule": "directed histories first (stale-reuse histories through store=False, direct kriging calls, custom names, several meshes "
                     "followed by an invalidation and a call without positions), each on several model families, then random histories "
-                    "(CondSRF calls with/without positions, same / new seeds and every store / krige_store form incl. custom names for every "
+                    "(CondSRF calls with/without positions, with a new seed, the same seed or NO seed argument / seed=nan (keep the generator's "
+                    "seed) and every store / krige_store form incl. custom names for every "
                     "slot, direct kriging calls at the same / other positions, set_pos on either object over six meshes (shared and different "
                     "point counts, one structured), runs of mesh changes, set_condition with new data / refresh, model change in place or by "
                     "re-assignment, mean/trend re-assignment, delete_fields on either object) on real CondSRF objects (Simple / Ordinary / "
-                    "Universal, dim 1-3, 15 model families; the model identifiers of a history differ ONLY in length scale (+ geometry), in one "
+                    "Universal with linear, quadratic and callable drift / ExtDrift / Detrended, dim 1-3, 15 model families; the model identifiers of a history differ ONLY in length scale (+ geometry), in one "
                     "optional argument, in anisotropy / rotation, in rescale, in var or in nugget); per call: real output == output of a freshly "
                     "built object  <=>  the cache model's tokens (raw kriging field AND variance) equal the fresh token; after every "
-                    "operation: field_names of both objects == the model's stored-field bookkeeping; plus the conditioning formula vs "
+                    "operation: field_names of both objects == the model's stored-field bookkeeping; per call: generator.seed == the model's "
+                    "seed in force, and the stored unconditional field == the fresh object's  <=>  the generator model's token equals the "
+                    "fresh token (in EVERY history, refreshed or not); plus the conditioning formula vs "
                     "get_scaling; distinct = distinct operation-kind sequences",
             "samples": [c[1] for c in cases[:3]], "disagreements": dis[:6], "distribution": dist}
 
@@ -656,6 +809,15 @@ def _fails(cv, ops, c0, m0, mu0):
     return bad[0] if bad else None
 
 
+def _fails_uncond(cv, ops, c0, m0, mu0):
+    try:
+        rr = run_real(cv, ops, c0, m0, mu0)["uncond"]
+    except Exception:       # noqa
+        return None
+    bad = [x for x in rr if x is not None and not x[0]]
+    return bad[0] if bad else None
+
+
 def _protocol_ok(ops):
     """every model / mean change is followed by a refresh before the next CondSRF call"""
     dirty = False
@@ -669,7 +831,7 @@ def _protocol_ok(ops):
     return True
 
 
-def shrink(cv, ops, c0, m0, mu0):
+def shrink(cv, ops, c0, m0, mu0, _fails=_fails):
     """drop operations, then reset options to their defaults, while the failure persists (and the protocol is respected)"""
     cur = [dict(o) for o in ops]
     changed = True
@@ -683,7 +845,7 @@ def shrink(cv, ops, c0, m0, mu0):
         if changed:
             continue
         for j in range(len(cur)):
-            for f in ("list", "sd", "re", "fn", "fs", "rfn", "rfs", "kfn", "kfs", "store", "kstore", "rn", "vn"):
+            for f in ("list", "sd", "keep", "re", "fn", "fs", "rfn", "rfs", "kfn", "kfs", "store", "kstore", "rn", "vn"):
                 if f in cur[j]:
                     o = dict(cur[j])
                     del o[f]
@@ -729,6 +891,17 @@ def history_search(ctx, n):
                                                  "removes all stored fields of the object: %s" % (k, ", ".join(left)),
                              "case": dict(case_dump(cv), history=ops[: idx + 1], init=[c0, m0, mu0], origin=origin,
                                           field_names_after=rr["names"][idx])})
+        for i, u in enumerate(rr["uncond"]):
+            if u is not None and not u[0]:
+                cur = shrink(cv, ops, c0, m0, mu0, _fails=_fails_uncond)
+                b = _fails_uncond(cv, cur, c0, m0, mu0) or u
+                key = "condsrf:stale-generator:" + "-".join(kind(o) for o in cur)
+                if key not in keys:
+                    keys.add(key)
+                    viol.append({"key": key, "what": "the unconditional field of a call differs from the one of a freshly built object with "
+                                                     "the seed in force and the current model (the generator was not synchronised)",
+                                 "case": dict(case_dump(cv), history=cur, init=[c0, m0, mu0], max_abs_diff=b[1], origin=origin)})
+                break
         for i, a in enumerate(real):
             if a != "ValueError" and not a[0]:
                 cur = shrink(cv, ops, c0, m0, mu0)
@@ -757,6 +930,270 @@ def history_search(ctx, n):
     return ev, viol
 
 
+# ---------------------------------------------------------------------------------------------------------------------------
+# kriging variants x model geometry x seed modes on the real CondSRF, against an independent oracle (no Lean model involved)
+STRATA = ["neither", "iso-rotated", "aniso-unrotated", "aniso-rotated"]
+VS_VARIANTS = ["Simple", "Ordinary", "Universal-linear", "Universal-quadratic", "Universal-callables", "ExtDrift", "Detrended",
+               "Generic-drift+ext"]
+ROUTES = ["direct", "inplace", "reassign"]
+VS_CLASSES = {"Gaussian": {}, "Exponential": {}, "Spherical": {}, "Matern": {"nu": 1.5}, "Stable": {"alpha": 1.5}}
+
+
+def iso_matrix(dim, anis, angles):
+    """hand-written geometry: the linear map taking positions to the isotropic coordinates of a model whose main axes are
+       rotated by the Tait-Bryan angles (planes xy, xz, yz with alternating signs) and whose transversal length scales are
+       anis * len_scale"""
+    rot = np.eye(dim)
+    for i, (a, (p_, q_)) in enumerate(zip(angles, [(0, 1), (0, 2), (1, 2)])):
+        g = np.eye(dim)
+        th = (-1) ** i * a
+        g[p_, p_] = g[q_, q_] = np.cos(th)
+        g[p_, q_], g[q_, p_] = -np.sin(th), np.sin(th)
+        rot = g @ rot
+    return np.diag(1.0 / np.array([1.0] + list(anis))) @ rot.T
+
+
+def geometry(rng, dim, stratum):
+    k = {1: 0, 2: 1, 3: 3}[dim]
+    anis = [1.0] * (dim - 1)
+    angles = [0.0] * k
+    if stratum in ("aniso-unrotated", "aniso-rotated"):
+        anis = [float(rng.choice([0.3, 0.45, 0.6, 1.6])) for _ in range(dim - 1)]
+    if stratum in ("iso-rotated", "aniso-rotated"):
+        angles = [float(rng.uniform(0.25, 1.4)) * (1 if rng.rand() < 0.8 else -1) for _ in range(k)]
+    return anis, angles
+
+
+def drift_rows(variant, dim, pos):
+    """functional drift terms on the ORIGINAL coordinates"""
+    pos = [np.asarray(x, dtype=float) for x in pos]
+    rows = []
+    if variant in ("Universal-linear", "Universal-quadratic", "Generic-drift+ext"):
+        rows += [pos[i] for i in range(dim)]
+    if variant == "Universal-quadratic":
+        rows += [pos[i] * pos[j] for i in range(dim) for j in range(i, dim)]
+    if variant == "Universal-callables":
+        rows += [_drift_a(*pos), _drift_b(*pos)]
+    return rows
+
+
+def brute_krige(model, T, cp, prep, pos, variant, exact):
+    """kriging system assembled and solved with numpy: covariances of the hand-computed distances, unbiasedness row, drift
+       rows on the original coordinates, external drift.  Returns (estimate of the prepared data, clipped variance, condition
+       number of the matrix)"""
+    from scipy.spatial.distance import cdist
+    a, b = (T @ cp).T, (T @ pos).T
+    n, m = cp.shape[1], pos.shape[1]
+    ccc = model.covariance(cdist(a, a)) + model.nugget * np.eye(n)
+    hct = cdist(a, b)
+    cct = model.covariance(hct)
+    if exact:
+        cct = cct + model.nugget * (hct == 0)
+    unbiased = variant not in ("Simple", "Detrended")
+    rows_c = ([np.ones(n)] if unbiased else []) + drift_rows(variant, cp.shape[0], cp)
+    rows_t = ([np.ones(m)] if unbiased else []) + drift_rows(variant, cp.shape[0], pos)
+    if variant in ("ExtDrift", "Generic-drift+ext"):
+        rows_c.append(ext_fun(*cp))
+        rows_t.append(ext_fun(*pos))
+    k = n + len(rows_c)
+    mat = np.zeros((k, k))
+    rhs = np.zeros((k, m))
+    mat[:n, :n] = ccc
+    rhs[:n] = cct
+    for i, (rc, rt) in enumerate(zip(rows_c, rows_t)):
+        mat[n + i, :n] = mat[:n, n + i] = rc
+        rhs[n + i] = rt
+    sol = np.linalg.solve(mat, rhs)
+    est = prep @ sol[:n]
+    kvar = np.maximum(model.sill - np.einsum("ij,ij->j", rhs, sol), 0.0)
+    return est, kvar, float(np.linalg.cond(mat))
+
+
+def variant_search(ctx, n, report):
+    """every kriging variant usable as the kriging step of CondSRF x model geometry stratum (isotropic model carrying rotation
+       angles / anisotropic unrotated / both / neither, dim 1-3) x how the geometry is reached (built that way / in-place
+       change + refresh / re-assignment + refresh after a first field) x seed mode of the calls (new seed, same seed, NO seed
+       argument, seed=np.nan) x given / other / stored positions.  Oracles: the data; krige + sqrt(kvar/var) * SRF(model, seed)
+       with krige, kvar from a numpy solve of the kriging system and the SRF built independently; a freshly built object."""
+    import gstools as gs
+    rng = np.random.RandomState(ctx.seed + 7077)
+    combos = [(v, st, r) for v in VS_VARIANTS for st in STRATA for r in ROUTES]
+    order = rng.permutation(len(combos))
+    ev = 0
+    stats = {"cases": 0, "calls": 0, "formula_compared": 0, "ill_conditioned_skipped": 0, "keep_after_change": 0}
+    side = {1: 8, 2: 4, 3: 3}
+    with warnings.catch_warnings():
+        warnings.simplefilter("ignore")
+        for t in range(n):
+            variant, stratum, route = combos[order[t % len(combos)]]
+            dim = int(rng.choice([1, 2, 3], p=[0.35, 0.4, 0.25])) if stratum == "neither" else int(rng.choice([2, 3], p=[0.7, 0.3]))
+            ndrift = len(drift_rows(variant, dim, [np.zeros(1)] * dim)) + (variant in ("ExtDrift", "Generic-drift+ext"))
+            nc = ndrift + 1 + int(rng.randint(2, 6))
+            grid = np.array(np.meshgrid(*([np.arange(side[dim])] * dim), indexing="ij")).reshape(dim, -1)
+            idx = rng.choice(grid.shape[1], size=min(nc, grid.shape[1]), replace=False)
+            cp = grid[:, idx] * 2.0 + rng.uniform(-0.3, 0.3, size=(dim, len(idx)))
+            val = rng.randn(len(idx))
+            # (Gaussian / Exponential sample their modes by inversion in dim <= 2, the others by MCMC: 20x slower to build)
+            cls = str(rng.choice(sorted(VS_CLASSES), p=[0.35, 0.35, 0.14, 0.08, 0.08]))
+            exact = bool(rng.rand() < 0.15)
+            nug = 0.1 if exact else 0.0
+            anis, angles = geometry(rng, dim, stratum)
+            target = dict(var=float(rng.choice([0.5, 2.0])), len_scale=float(rng.choice([1.0, 2.0, 3.0])), nugget=nug)
+            if dim > 1:
+                target.update(anis=anis, angles=angles)
+            tr_c = float(rng.choice([0.0, 0.3]))
+
+            def mk(par, c=cls):
+                return getattr(gs, c)(dim=dim, **VS_CLASSES[c], **par)
+
+            def mkkrige(m):
+                tr = tr_c if tr_c else None
+                if variant == "Simple":
+                    return gs.krige.Simple(m, cp, val, mean=0.5, exact=exact)
+                if variant == "Ordinary":
+                    return gs.krige.Ordinary(m, cp, val, trend=tr, exact=exact)
+                if variant == "ExtDrift":
+                    return gs.krige.ExtDrift(m, cp, val, ext_fun(*cp), trend=tr, exact=exact)
+                if variant == "Detrended":
+                    return gs.krige.Detrended(m, cp, val, trend_fun(0.4), exact=exact)
+                if variant == "Generic-drift+ext":
+                    return gs.krige.Krige(m, cp, val, drift_functions="linear", ext_drift=ext_fun(*cp), trend=tr, exact=exact)
+                drift = {"Universal-linear": "linear", "Universal-quadratic": "quadratic",
+                         "Universal-callables": [_drift_a, _drift_b]}[variant]
+                return gs.krige.Universal(m, cp, val, drift, trend=tr, exact=exact)
+
+            def offsets(pos):
+                """(what was removed from the data, what is added to the raw field at pos)"""
+                if variant == "Simple":
+                    return 0.5 + 0 * cp[0], 0.5 + 0 * pos[0]
+                if variant == "Detrended":
+                    return trend_fun(0.4)(*cp), trend_fun(0.4)(*pos)
+                return tr_c + 0 * cp[0], tr_c + 0 * pos[0]
+
+            meshes = [np.hstack([cp, rng.uniform(-1, 7, size=(dim, 5))]),
+                      np.hstack([cp[:, ::-1], rng.uniform(-1, 7, size=(dim, 3))])]
+            dat_idx = [np.arange(cp.shape[1]), np.arange(cp.shape[1])]
+            dat_val = [val, val[::-1]]
+            has_ext = variant in ("ExtDrift", "Generic-drift+ext")
+            seed0 = int(rng.randint(1, 10**6))
+            cur = seed0
+            desc = dict(variant=variant, stratum=stratum, route=route, dim=dim, cond_pos=cp.tolist(), cond_val=val.tolist(),
+                        model_class=cls, model_kwargs=target, exact=exact, trend=tr_c, constructor_seed=seed0, history=[])
+            try:
+                mesh_id = None
+                if route == "direct":
+                    crf = gs.CondSRF(mkkrige(mk(target)), seed=seed0, mode_no=64)
+                else:
+                    # start in another geometry stratum (and another length scale / variance), generate once, then move
+                    other = STRATA[(STRATA.index(stratum) + int(rng.randint(1, 4))) % 4] if dim > 1 else "neither"
+                    a0, g0 = geometry(rng, dim, other)
+                    start = dict(target)
+                    if dim > 1:
+                        start.update(anis=a0, angles=g0)
+                    if rng.rand() < 0.6 or dim == 1:
+                        start["len_scale"] = float(rng.choice([1.5, 4.0]))
+                    if rng.rand() < 0.4:
+                        start["var"] = 1.25
+                    cls0 = cls if route == "inplace" else str(rng.choice(sorted(VS_CLASSES)))
+                    crf = gs.CondSRF(mkkrige(mk(start, cls0)), seed=seed0, mode_no=64)
+                    mesh_id = int(rng.randint(0, 2))
+                    kw0 = {"ext_drift": ext_fun(*meshes[mesh_id])} if has_ext else {}
+                    if rng.rand() < 0.5:
+                        cur = int(rng.randint(1, 10**6))
+                        kw0["seed"] = cur
+                    crf(meshes[mesh_id], **kw0)
+                    desc["history"].append("start: %s %r; crf(mesh %d%s)" % (cls0, start, mesh_id, ", seed=%d" % cur if "seed" in kw0 else ""))
+                    if route == "inplace":
+                        for k_ in ("anis", "angles", "len_scale", "var"):
+                            if k_ in target and start[k_] != target[k_]:
+                                setattr(crf.model, k_, target[k_])
+                                desc["history"].append("crf.model.%s = %r" % (k_, target[k_]))
+                    else:
+                        crf.model = mk(target)
+                        desc["history"].append("crf.model = %s(**model_kwargs)" % cls)
+                    crf.krige.set_condition()
+                    desc["history"].append("crf.krige.set_condition()")
+                stats["cases"] += 1
+                changed = route != "direct"
+                ncalls = int(rng.randint(2, 4))
+                for c_i in range(ncalls):
+                    smode = str(rng.choice(["new", "same", "omit", "nan"])) if not exact else "new"
+                    pmode = "given" if mesh_id is None else str(rng.choice(["given-same", "given-other", "stored"]))
+                    if pmode in ("given", "given-other"):
+                        mesh_id = int(rng.randint(0, 2)) if mesh_id is None else 1 - mesh_id
+                    pos = meshes[mesh_id]
+                    kw = {"ext_drift": ext_fun(*pos)} if has_ext else {}
+                    if smode == "new":
+                        cur = int(rng.randint(1, 10**6))
+                        kw["seed"] = cur
+                    elif smode == "same":
+                        kw["seed"] = cur
+                    elif smode == "nan":
+                        kw["seed"] = np.nan
+                    desc["history"].append("crf(%s%s)" % ("" if pmode == "stored" else "mesh %d" % mesh_id,
+                                                          "" if smode == "omit" else ", seed=%s" % kw["seed"]))
+                    got = crf(**kw) if pmode == "stored" else crf(pos, **kw)
+                    ev += 1
+                    stats["calls"] += 1
+                    stats["keep_after_change"] += int(changed and smode in ("omit", "nan"))
+                    changed = False
+                    case = dict(desc, history=list(desc["history"]), seed_in_force=cur, seed_mode=smode, positions=pmode,
+                                target_pos=pos.tolist())
+                    # (a) the data
+                    tol = 1e-6 * (1 + np.abs(val).max())
+                    if not np.allclose(got[dat_idx[mesh_id]], dat_val[mesh_id], atol=tol):
+                        report({"key": "condsrf:variants:data-not-honoured:%s:%s" % (variant, stratum),
+                                "what": "conditioned field differs from the data at the conditioning locations (zero measurement error)",
+                                "case": case, "max_abs_diff": float(np.max(np.abs(got[dat_idx[mesh_id]] - dat_val[mesh_id])))})
+                    # (c) a freshly built object with the seed in force (the last call of a case; the histories above compare
+                    #     every call with a fresh object)
+                    if c_i == ncalls - 1:
+                        fkw = {"ext_drift": ext_fun(*pos)} if has_ext else {}
+                        fresh = gs.CondSRF(mkkrige(mk(target)), seed=cur, mode_no=64)(pos, **fkw)
+                        ev += 1
+                        if not np.allclose(got, fresh, atol=1e-9 * (1 + np.abs(fresh).max())):
+                            report({"key": "condsrf:variants:not-fresh:%s:seed-%s" % (route, smode),
+                                    "what": "conditioned field differs from the one of a freshly built object (same data, model, seed in force)",
+                                    "case": case, "max_abs_diff": float(np.max(np.abs(got - fresh)))})
+                    # (b) the defining formula from independent parts
+                    # (the structured part only: a plain SRF adds its own nugget noise, CondSRF scales that separately)
+                    raw = gs.SRF(mk(dict(target, nugget=0.0)), seed=cur, mode_no=64)(pos)
+                    own_raw = np.asarray(crf["raw_field"])
+                    ev += 1
+                    raw_ok = bool(np.allclose(own_raw, raw, atol=1e-9 * (1 + np.abs(raw).max())))
+                    if not raw_ok:
+                        report({"key": "condsrf:variants:unconditional-part:%s:seed-%s" % (route, smode),
+                                "what": "the unconditional field entering the conditioned field is not SRF(current model, seed in force)(pos)",
+                                "case": case, "max_abs_diff": float(np.max(np.abs(own_raw - raw)))})
+                    off_c, off_t = offsets(pos)
+                    ref = mk(target)
+                    est, kvar, cnd = brute_krige(ref, iso_matrix(dim, anis, angles), cp, val - off_c, pos, variant, exact)
+                    if cnd > 1e7:
+                        stats["ill_conditioned_skipped"] += 1
+                        continue
+                    ev += 1
+                    stats["formula_compared"] += 1
+                    sc = 1 + np.abs(est).max()
+                    own_k, own_v = np.asarray(crf["raw_krige"]), np.asarray(crf.krige["krige_var"])
+                    part_ok = np.allclose(own_k, est, atol=1e-7 * sc) and np.allclose(own_v, kvar, atol=1e-7 * (1 + ref.sill))
+                    if not part_ok:
+                        report({"key": "condsrf:variants:kriging-part:%s:%s" % (variant, stratum),
+                                "what": "raw kriging field / kriging variance used by CondSRF differ from the kriging system solved with numpy "
+                                        "(covariances of anisotropic distances, drift terms on the original coordinates)",
+                                "case": case, "max_abs_diff_estimate": float(np.max(np.abs(own_k - est))),
+                                "max_abs_diff_variance": float(np.max(np.abs(own_v - kvar))), "condition_number": cnd})
+                    if nug == 0 and part_ok and raw_ok:      # (a wrong part is reported above)
+                        want = est + np.sqrt(kvar / ref.var) * raw + off_t
+                        if not np.allclose(got, want, atol=1e-7 * (1 + np.abs(want).max())):
+                            report({"key": "condsrf:variants:formula:%s:%s" % (variant, stratum),
+                                    "what": "conditioned field is not trend/mean + krige + sqrt(kvar/var) * SRF(model, seed)(pos) with krige, kvar "
+                                            "from an independently solved kriging system and an independently built SRF",
+                                    "case": case, "max_abs_diff": float(np.max(np.abs(got - want))), "condition_number": cnd})
+            except Exception as e:       # noqa
+                report({"key": "condsrf:variants:raised:%s" % variant, "what": "%s: %s" % (type(e).__name__, e), "case": desc})
+    return ev, stats
+
+
 def search(ctx, deep=False):
     import gstools as gs
     rng = np.random.RandomState(ctx.seed + 77)
@@ -768,6 +1205,9 @@ def search(ctx, deep=False):
         if v["key"] not in seen:
             seen.add(v["key"])
             viol.append(v)
+
+    ev_v, vstats = variant_search(ctx, ctx.scale(96, 960) * (2 if deep else 1), report)
+    ev += ev_v
 
     with warnings.catch_warnings():
         warnings.simplefilter("ignore")
@@ -831,7 +1271,14 @@ def search(ctx, deep=False):
                             report({"key": "condsrf:far-field", "what": "far from the data the simple-kriging conditioned field is not mean + unconditional field",
                                     "case": dict(desc, seed=int(seed)), "got": float(f[-1]), "want": float(0.5 + raw[-1])})
     return {"evaluations": ev, "violations": viol[:10],
-            "summary": "real CondSRF: directed + random protocol-respecting histories (store / krige_store forms, custom names for every slot, direct "
+            "summary": "variant search %r: every kriging variant usable for conditioning (Simple, Ordinary, Universal with linear / quadratic / "
+                       "callable drift, ExtDrift, Detrended, generic Krige with functional + external drift) x model geometry stratum (isotropic "
+                       "model carrying rotation angles, anisotropic unrotated, both, neither; dim 1-3) x how it is reached (built / in-place "
+                       "change + refresh / re-assignment + refresh after a first field) x calls with a new seed, the same seed, NO seed, "
+                       "seed=nan at given / other / stored positions; oracles: the data, the unconditional part vs an independent SRF(model, "
+                       "seed in force), kriging estimate and variance vs a numpy solve of the kriging system (hand-computed anisotropic "
+                       "distances, drift rows on the original coordinates), the composed formula, a freshly built object.  " % (vstats,) +
+                       "real CondSRF: directed + random protocol-respecting histories (calls with new / same / NO seed; store / krige_store forms, custom names for every slot, direct "
                        "kriging calls, set_pos / delete_fields on either object over six meshes, runs of mesh changes + invalidation + call without "
                        "positions, model changes in place / by re-assignment touching only the length scale, one optional argument, the geometry, "
                        "rescale, var or nugget, each followed by the refresh; 15 model families) vs freshly built objects; after every deletion / "
